@@ -54,6 +54,28 @@ def run(ctx):
             for _ in range(ctx.n(4, 16)):
                 pl = rng.randrange(12, 20)
                 cases.append((fn, (rng.randbytes(rng.choice((8, 16, 24))), table, rnd(rng.randrange(4, 17)), rnd(pl), 0, min(pl, 16), rng.choice("0F9a"))))
+        # chosen cipher blocks: a PVK under which legal validation data (window digits, then one repeated pad character)
+        # encrypts to all zero / one repeated hex digit / 0123456789ABCDEF
+        if fn == "generate_ibm3624_pin":
+            from harness import gens as _g
+
+            def legal(nb):
+                m = 16
+                while m > 0 and nb[m - 1] == nb[15]:
+                    m -= 1
+                return (m, nb) if all(x < 10 for x in nb[:m]) else None
+
+            chosen = []
+            for target in _g.SPECIAL_BLOCKS:
+                hit = _g.chosen_ciphertext(rng, rng.choice((8, 16, 24)), target, legal, tries=ctx.n(6000, 40000))
+                if hit:
+                    chosen.append(hit)
+        for k_, (m_, nb_) in chosen:
+            window = "".join(str(x) for x in nb_[:m_])
+            padc = "0123456789ABCDEF"[nb_[15]]
+            for table in ("0123456789012345", rnd(16)):
+                cases.append((fn, (k_, table, rnd(rng.randrange(4, 17)), window, 0, m_, padc)))
+                cases.append((fn, (k_, table, rnd(4), rnd(2) + window, 2, m_, padc.lower())))
         # windows: all (start, length) for one PAN of 19 incl. > 16 and empty, and a few past the end
         pan = rnd(19)
         pvk, table = rng.randbytes(16), rnd(16)
